@@ -3,7 +3,7 @@ import pv
 SPEC = {
     "targets": ["Properties/C03.vo", "Run/C03.vo"],
     "theorems": {"Properties.C03": [
-        "C03_changes_track_renames", "C03_rename_onto_deleted_path_tracked", "C03_changes_bodies_fork_and_head", "C03_compared_versions_are_fork_and_head", "C03_changes_have_commits",
+        "C03_changes_track_renames", "C03_rename_onto_deleted_path_tracked", "C03_changes_bodies_fork_and_head", "C03_compared_versions_are_fork_and_head", "C03_changes_have_commits", "C03_git_tables",
         "C03_unquote_inverts_git_quoting", "C03_match_sound", "C03_added_only_if_ambiguous", "C03_disables_order_irrelevant", "C03_state_sound", "C03_state_tables",
         "C03_changed_never_skipped", "C03_untouched_noop", "C03_untouched_moved", "C03_merge_sound", "C03_untouched_final_noop", "C03_final_state_origin", "C03_changed_final_never_skipped", "C03_history_untouched_noop", "C03_history_changed_never_skipped", "C03_classify_unfold", "C03_nonvacuous", "C03_faithful_nonvacuous"]},
     "harness_args": lambda tier: ["C03", "--n", 240 if tier == "quick" else 3000,
@@ -14,7 +14,9 @@ SPEC = {
     "trusted_base": [
         "Coq 8.16.1 kernel + VM (vm_compute for the table theorem, the tracked-witness example, the 256-case byte lemma of the unquoting proof and "
         "the correspondence evaluation); no axioms (Print Assumptions: closed under the global context)",
-        "translator (/verif/translator, go/ast): ChangeType iota block, CIStates, stateMatches switch -> Gen/Tables.v (C03_state_tables)",
+        "translator (/verif/translator, go/ast): ChangeType iota block, CIStates, stateMatches switch -> Gen/Tables.v (C03_state_tables); "
+        "ext_C03: FileStatus rune constants, the `switch change.Status` case lists of git.Changes, PathType iota block, the `git log` argument "
+        "vector -> Gen/C03.v (C03_git_tables); fails closed on shapes it does not recognise",
         "L1 correspondence: real matchEntries (overlay export) on entry lists parsed by the real parser from generated before/after files "
         "vs Model/GitBranch.match_entries; content ids = classes of the real Rule.IsIdentical (checked to be an equivalence on every case)",
         "L2 correspondence: real git.Changes run in-process on scratch repositories with a recording git runner vs Model/GitChanges on the "
